@@ -13,6 +13,9 @@ a necessary condition each - breaking it breaks the property for some message an
       interval (an all-ones suffix would leave it): seal() then appends a second word, and that word is zero (any other
       value moves the prefix interval up).  The deciding test compares the emitted word with the top word of
       lower +w range under the same shift.
+  S6  every admitted width.  The zero word narrows the prefix interval to 2^(k - W); only a distance of 1 to the end of the
+      final interval is guaranteed, so k - W <= 0, i.e. State <= 2 Words, is needed - a genuine defect of the pinned tree
+      for wider states (known finding F22).
   S3  only appending.  seal() and encode_symbol touch the sink through WriteWords::write alone (a message can be started
       on a sink that already holds data, sealed messages can be stored back to back).
   S4  length independence of the reader.  RangeDecoder's window reader and decode_symbol use the source through
@@ -28,6 +31,7 @@ import props.C18 as c18
 RENC = anchors.RENC
 RDEC = anchors.RDEC
 BULK = (1, 'deref', ('f', 'bulk'))
+WB = pow2.bits_of('Word')
 
 
 def check_addend_exact(ctx, F):
@@ -87,6 +91,17 @@ def check_second_word(ctx, F):
         return isinstance(x, tuple) and x and x[0] == 'bin' and x[1] == 'Add.w' and any(lower_is(o) for o in (x[2], x[3])) and range_is(x)
     n_two = n_one = 0
     bad = unk = None
+    n_point_paths = n_followed = 0
+
+    def nonwrapping_upper(x):
+        # lower combined with range by anything but a wrapping addition (plain +, saturating_add, checked_add ...)
+        if not isinstance(x, tuple) or not x:
+            return False
+        if x[0] == 'bin' and x[1].split('.')[0] == 'Add' and x[1] != 'Add.w' and any(lower_is(o) for o in (x[2], x[3])) and range_is(x):
+            return True
+        if x[0] == 'call' and isinstance(x[1], str) and x[1].endswith(('::saturating_add', '::checked_add', '::overflowing_add', '::unchecked_add')) and x[2] and any(lower_is(o) for o in x[2]) and range_is(x):
+            return True
+        return False
     for r in spaths or []:
         if r.end != 'return' or rules.ret_shape(r.ret)[0] != 'Ok':
             continue
@@ -96,10 +111,14 @@ def check_second_word(ctx, F):
         if not pw:
             continue
         after = ws[pw[-1] + 1:]
+        n_point_paths += 1
+        n_followed += 1 if after else 0
         # the test on this path
         verdict = None
         for t, v, _ in r.preds:
             t = rules.inline_pure(F, t)
+            if sym.contains(t, nonwrapping_upper):
+                bad = 'the end of the final interval is computed as %s, without wrap-around: when lower + range passes 2^State::BITS (the coder holds back words) the top word compared with the point word is wrong and the second sealing word is omitted where it is needed' % sym.show([x for x in sym.subterms(t) if nonwrapping_upper(x)][0])[:90]
             if isinstance(v, tuple) or not (isinstance(t, tuple) and t and t[0] == 'bin' and t[1].split('.')[0] in ('Eq', 'Ne')):
                 continue
             a, b = _top_word(t[2], kk), _top_word(t[3], kk)
@@ -120,11 +139,73 @@ def check_second_word(ctx, F):
             n_one += 1
             if after:
                 unk = unk or 'words follow the point word on the path where one word suffices'
+    if not bad and n_point_paths and not n_followed and not n_two:
+        bad = 'no path of seal() appends a word after the point word: when the top word of lower + range equals the point word, one word does not pin the interval and an all-ones suffix decodes to a different last symbol'
     if bad:
         return ctx.bad('R4', role, seal.defpath, bad, key=key, loc=rules.loc(seal))
     if unk or not n_two or not n_one:
         return ctx.unresolved('R4', role, seal.defpath, unk or 'paths with one / two sealing words not both found (%d / %d)' % (n_one, n_two), key=key)
     return ctx.ok('R4', role, seal.defpath, '%d path(s) with top words equal append one zero word, %d path(s) with top words different append none' % (n_two, n_one), key=key)
+
+
+def check_pins_every_width(ctx, F):
+    """S6.  After the point word and j zero words the decoder can land anywhere in a prefix interval of width 2^(k - j*W)
+    that starts at  base = (point >> k) << k.  The sealing addend guarantees  lower <= base  and  base < lower + range, i.e.
+    only that the distance from base to the end of the final interval is at least 1.  So the emitted words pin the message
+    for every state only if  k - j*W <= 0  for the largest j seal() can emit.  With k = S - W and j = 1 that is S <= 2W: true
+    for State = two Words, false for the wider states the type admits (State >= 2 Words is all the coders assert)."""
+    key = 'R10/seal-pins-every-width/' + RENC
+    role = 'the sealing words pin the message for every admitted (Word, State)'
+    seal = anchors.range_encoder_parts(F).get('seal')
+    if seal is None:
+        return ctx.bad('R10', role, RENC, 'seal() not found', key=key)
+    _, spaths = rules.evaluate(seal)
+    A, k, _ = c02._seal_addend(spaths, F)
+    if A is None:
+        return ctx.unresolved('R10', role, seal.defpath, 'sealing addend not recognised', key=key)
+    kk = pow2._exp_key(k)
+    lower_is = lambda x: c18._is_field(x, 'state', 'lower')
+    range_is = lambda x: sym.contains(x, lambda y: c18._is_field(y, 'state', 'range'))
+    is_point = lambda x: isinstance(x, tuple) and x and x[0] == 'bin' and x[1] == 'Add.w' and any(lower_is(o) for o in (x[2], x[3])) and not range_is(x)
+    j_max = None
+    for r in spaths or []:
+        ws_all = [e for e in r.events if c08.is_call_on(e, 'WriteWords::write', BULK)]
+        pw_all = [i for i, e in enumerate(ws_all) if (lambda x: x is not None and is_point(rules.inline_pure(F, x)))(_top_word(rules.inline_pure(F, e['args'][1]), kk))]
+        if r.end == 'backedge' and pw_all and len(ws_all) > pw_all[-1] + 1:
+            # (the loop that releases held-back words runs before the point word and does not count)
+            return ctx.unresolved('R10', role, seal.defpath, 'zero words are written inside a loop: the number of sealing words is data dependent, which this rule does not evaluate', key=key)
+        if r.end != 'return' or rules.ret_shape(r.ret)[0] != 'Ok':
+            continue
+        ws = [e for e in r.events if c08.is_call_on(e, 'WriteWords::write', BULK)]
+        pw = [i for i, e in enumerate(ws) if (lambda x: x is not None and is_point(rules.inline_pure(F, x)))(_top_word(rules.inline_pure(F, e['args'][1]), kk))]
+        if pw:
+            j_max = max(j_max or 0, len(ws) - 1 - pw[-1])
+    if j_max is None:
+        return ctx.unresolved('R10', role, seal.defpath, 'no path writes the point word', key=key)
+    e = pow2._exp_add(k, WB, -j_max)          # log2 of the width of the prefix interval after the last sealing word
+    ctx.assume('the range coders assert State::BITS >= 2 * Word::BITS and nothing more (witnessed in the thorough tier of C02)')
+    # evaluate the affine exponent at State = 2 Words and at State = 4 Words
+    def at(e, s_over_w):
+        v = e[1]
+        for kx, (c, atom) in e[0].items():
+            name = sym.show(atom)
+            if 'State' in name and 'BITS' in name:
+                v += c * s_over_w
+            elif 'Word' in name and 'BITS' in name:
+                v += c * 1
+            else:
+                return None
+        return v
+    e2, e4 = at(e, 2), at(e, 4)
+    if e2 is None or e4 is None:
+        return ctx.unresolved('R10', role, seal.defpath, 'residual width 2^(%s) is not a function of the two widths' % sym.affine_str(e), key=key)
+    if e2 <= 0 and e4 <= 0:
+        return ctx.ok('R10', role, seal.defpath, 'after at most %d zero word(s) the prefix interval has width 2^(%s) <= 1' % (j_max, sym.affine_str(e)), key=key)
+    if e2 <= 0 < e4:
+        return ctx.bad('R10', role + ' (State wider than two Words)', seal.defpath, 'seal() emits at most %d word(s) after the point word, which leaves a prefix interval of width 2^(%s): a single value for State = 2 Words, but 2^Word::BITS or more values for wider states, '
+                       'while only a distance of 1 between the truncated point and the end of the final interval is guaranteed. For State wider than two Words an all-ones suffix can therefore move the decoder past the final interval '
+                       '(RangeEncoder<u8, u32>, probabilities [3, 3, 160, 90] at PRECISION 8, message [0, 3, 0, 1, 0, 0, 1] followed by ff ff ff decodes the last symbol as 2)' % (j_max, sym.affine_str(e)), key=key + '/wider-than-two-words', loc=rules.loc(seal))
+    return ctx.bad('R10', role, seal.defpath, 'the prefix interval after the sealing words has width 2^(%s) > 1 even for State = 2 Words: seal() never appends the second word, so an all-ones suffix moves the decoder past the end of the final interval whenever one word does not pin it' % sym.affine_str(e), key=key, loc=rules.loc(seal))
 
 
 def check_append_only(ctx, F):
@@ -194,6 +275,7 @@ def run(ctx):
     F = ctx.F
     check_addend_exact(ctx, F)
     check_second_word(ctx, F)
+    check_pins_every_width(ctx, F)
     check_append_only(ctx, F)
     check_reader_length_blind(ctx, F)
     c18.check_reader_zero_fill(ctx, F)
